@@ -77,6 +77,7 @@ impl Pool {
                         let line = json!({"idx": idx, "task": task}).to_string();
                         let mut outcome: Option<Outcome> = None;
                         let mut last_case: Option<Value> = None;
+                        let mut last_panic = String::new();
                         let mut recycle = false;
                         if wk.stdin.write_all(line.as_bytes()).is_err() || wk.stdin.write_all(b"\n").is_err() || wk.stdin.flush().is_err() {
                             // worker already dead
@@ -92,6 +93,10 @@ impl Pool {
                                         };
                                         if let Some(c) = v.get("case") {
                                             last_case = Some(c.clone());
+                                            continue;
+                                        }
+                                        if let Some(p) = v.get("panic") {
+                                            last_panic = p.as_str().unwrap_or("").to_string();
                                             continue;
                                         }
                                         if v.get("idx").and_then(|i| i.as_u64()) == Some(idx as u64) {
@@ -118,10 +123,13 @@ impl Pool {
                             None => {
                                 let mut old = w.take().unwrap();
                                 drop(old.stdin);
-                                let status = match old.child.wait() {
+                                let mut status = match old.child.wait() {
                                     Ok(st) => format!("{}", st),
                                     Err(e) => format!("wait failed: {}", e),
                                 };
+                                if !last_panic.is_empty() {
+                                    status.push_str(&format!(" (last panic: {})", last_panic));
+                                }
                                 results.lock().unwrap()[idx] = Some(Outcome::Died { status, case: last_case });
                             }
                         }
@@ -138,6 +146,8 @@ impl Pool {
 }
 
 // ------------------------------------------------------------------ worker side
+
+static PROTO_FD: std::sync::atomic::AtomicI32 = std::sync::atomic::AtomicI32::new(-1);
 
 pub struct WorkerIo {
     out: std::fs::File,
@@ -157,6 +167,17 @@ impl WorkerIo {
                 libc::dup2(fd, 2);
                 libc::close(fd);
             }
+            PROTO_FD.store(proto, std::sync::atomic::Ordering::SeqCst);
+            std::panic::set_hook(Box::new(|info| {
+                // every panic (also those caught on the event-loop thread) is reported on the protocol pipe,
+                // so that the parent can name it if the worker dies
+                let msg = format!("{}", info).replace('\n', " ");
+                let line = format!("{}\n", json!({"panic": msg}));
+                let fd = PROTO_FD.load(std::sync::atomic::Ordering::SeqCst);
+                if fd >= 0 {
+                    libc::write(fd, line.as_ptr() as *const libc::c_void, line.len());
+                }
+            }));
             WorkerIo { out: std::fs::File::from_raw_fd(proto) }
         }
     }
